@@ -63,7 +63,8 @@ def ref_lp(kind, c, t, mhc=None, physical_meat=True, time_limit=60.0):
         return idx[(n, m)]
 
     def w(key):
-        return 1 - c[key] / 100.0
+        # the scenario's input retail waste (one value for all foods), not the per-food copies made for the optimiser
+        return 1 - c["inputs"]["WASTE_RETAIL"] / 100.0
 
     SK, BKN = c["SEAWEED_KCALS"], c["BILLION_KCALS_NEEDED"]
     store = bool(c["STORE_FOOD_BETWEEN_YEARS"])
